@@ -77,6 +77,15 @@ impl<I: Prefix> PrefixSet<I> {
     pub uninterp spec fn nonempty(&self) -> bool;
     #[verifier::external_body]
     pub fn get_lpm(&self, ip: &I) -> (r: Option<&I>) ensures match r { Some(p) => self.lpm(*ip) == Some(*p), None => self.lpm(*ip) is None } { unimplemented!() }
+    // the crate's other lookup: the SHORTEST configured prefix containing the address (some prefix matches iff the longest does;
+    // if the shortest is the longest the two agree) -- not used by the repository, present so that a tree using it is judged
+    pub uninterp spec fn spm(&self, ip: I) -> Option<I>;
+    #[verifier::external_body]
+    pub fn get_spm(&self, ip: &I) -> (r: Option<&I>)
+        ensures match r { Some(p) => self.spm(*ip) == Some(*p), None => self.spm(*ip) is None },
+            self.spm(*ip) is Some == self.lpm(*ip) is Some,
+            self.spm(*ip) matches Some(s) ==> s.plen() <= self.lpm(*ip).unwrap().plen(),
+    { unimplemented!() }
     // `set.iter().next().is_some()`
     #[verifier::external_body]
     pub fn vp_nonempty(&self) -> (r: bool) ensures r == self.nonempty() { unimplemented!() }
